@@ -1,6 +1,6 @@
 (** C01: the generated parser recognises exactly the grammar's PEG language. *)
 From PegV Require Import Base.Tac Spec.Syntax Spec.Peg Spec.WF Model.Machine Model.Gen Model.Analyses Model.Emit Model.SEmit Model.Exec
-  Proofs.Top Proofs.EmitUse Proofs.SEmitSound Proofs.SEmitFile Proofs.DeepDefault Properties.Example Generated.PegPeg.
+  Proofs.Top Proofs.EmitUse Proofs.SEmitSound Proofs.SEmitFile Proofs.DeepDefault Proofs.CountInline Properties.Example Generated.PegPeg.
 From Coq Require Import Lia.
 Local Open Scope nat_scope.
 
@@ -131,6 +131,24 @@ Theorem C01_generated_code_is_peg_default_any_rule :
     end.
 Proof. exact generated_code_default. Qed.
 Print Assumptions C01_generated_code_is_peg_default_any_rule.
+(** ... and with -inline: a rule countRules arrives at once is met by its depth-first walk on the first arrival only, which
+    walks the body there and then with fuel to spare, and the emitter walks the same bodies in the same nesting
+    (Proofs/CountInline.v).  So [deep_table_b] holds for every grammar under either setting, and the code-level theorems
+    of C01 - C07, C11 - C13 need no side condition beyond the two syntactic ones. *)
+Theorem C01_side_condition_always_holds :
+  forall g inline, grammar_alt2 g -> closed_names g -> deep_table_b g inline = true.
+Proof. exact deep_table_all. Qed.
+Print Assumptions C01_side_condition_always_holds.
+Theorem C01_generated_code_is_peg_all_options :
+  forall g ptx buf penv, good_grammar g -> good_buf buf -> good_switches g -> grammar_alt2 g -> closed_names g ->
+  forall memo inline n r st0 rr, slot_ok g inline r -> reached (count_rules g) r = true -> peg_parse g ptx buf penv (S n) r = Some rr ->
+  forall res, xcall buf penv (mk_opts true memo inline g) (gen_fn g ptx inline) r (reset st0) res ->
+    match rr with
+    | (Succ p f, _) => exists st', res = Ret true st' /\ pos st' = p /\ live st' = Syntax.flat f
+    | (Fail, evs) => exists st', res = Ret false st' /\ maxtok st' = first_furthest evs
+    end.
+Proof. exact generated_code_all_options. Qed.
+Print Assumptions C01_generated_code_is_peg_all_options.
 Example C01_default_nonvacuous : grammar_alt2 ex_g /\ closed_names ex_g /\ grammar_alt2 pegpeg_d /\ closed_names pegpeg_d.
 Proof.
   split; [apply grammar_alt2_b_ok; vm_compute; reflexivity|]. split; [apply closed_names_b_ok; vm_compute; reflexivity|].
